@@ -1,9 +1,121 @@
-/- driver handler of the `quota` stream (line protocol, see Main.lean) -/
+/- driver handler of the `quota` stream (line protocol, see Main.lean)
+
+  quota data <site> <n>            -> accepted | refused <error>     (a measured length at a data site)
+  quota stateq <none|terminalOutputUnchecked> <0|1 terminal> <n> -> verdict of a state output of length n
+  quota state <json>               -> accepted <serLen> | refused <error> <serLen>   (a state's output)
+  quota text <site> "<text>"       -> accepted <chars> | refused <error> <chars>     (a submitted / reply text)
+  quota serlen <json>              -> ok <n>                         (len(json.dumps(value)))
+  quota pad <str|obj|arr|arr2> <n> -> ok <serLen of the padding document>
+  quota def <site> <n>             -> accepted | refused InvalidDefinition
+  quota name <asyncio|flask> "<s>" -> accepted | refused InvalidName
+  quota hist <h0> [adds…]          -> ok {"failed":b,"len":n}
+  quota limits                     -> ok {…the generated constants…}
+-/
 import AslModel.Drv.Util
+import AslModel.Quota
 namespace Asl.Drv.Quota
-open Asl
+open Asl Asl.Drv Asl.Quota
+
+def dataSite : String → Option DataSite
+  | "apiStartExecution" => some .apiStartExecution
+  | "apiStartExecutionFlask" => some .apiStartExecutionFlask
+  | "apiStartSyncExecution" => some .apiStartSyncExecution
+  | "apiSendTaskSuccess" => some .apiSendTaskSuccess
+  | "stateOutput" => some .stateOutput
+  | "taskReply" => some .taskReply
+  | "callbackOutput" => some .callbackOutput
+  | _ => none
+
+def defSite : String → Option DefSite
+  | "createStateMachine" => some .createStateMachine
+  | "updateStateMachine" => some .updateStateMachine
+  | "createStateMachineFlask" => some .createStateMachineFlask
+  | "updateStateMachineFlask" => some .updateStateMachineFlask
+  | _ => none
+
+def nameSite : String → Option NameSite
+  | "asyncio" => some .asyncio
+  | "flask" => some .flask
+  | _ => none
+
+def showVerdict : Verdict → String
+  | .accepted => "accepted"
+  | .refused e => "refused\t" ++ String.ofList e
+
+def natOf (s : String) : Option Nat := s.toNat?
+
+def natList : List Json → Option (List Nat)
+  | [] => some []
+  | .num n :: rest =>
+    if n < 0 then none else
+    match natList rest with
+    | some xs => some (n.toNat :: xs)
+    | none => none
+  | _ => none
+
+def nat (n : Nat) : Json := .num (Int.ofNat n)
 
 def handle : List String → String
+  | ["data", s, n] =>
+    match dataSite s, natOf n with
+    | some site, some k => showVerdict (checkData site k)
+    | _, _ => "unsupported"
+  | ["stateq", quirk, term, n] =>
+    match natOf n with
+    | some k =>
+      let q : Quirks := { terminalOutputUnchecked := quirk = "terminalOutputUnchecked" }
+      if quirk = "none" || quirk = "terminalOutputUnchecked" then
+        showVerdict (checkStateOutputLenQ q (term = "1") k)
+      else "unsupported"
+    | none => "unsupported"
+  | ["state", j] =>
+    match rd j with
+    | some v => showVerdict (checkStateOutput v) ++ "\t" ++ toString (serLen v)
+    | none => "unsupported"
+  | ["text", s, j] =>
+    match dataSite s, rd j with
+    | some site, some (.str t) => showVerdict (checkText site t) ++ "\t" ++ toString t.length
+    | _, _ => "unsupported"
+  | ["serlen", j] =>
+    match rd j with
+    | some v => "ok\t" ++ toString (serLen v)
+    | none => "unsupported"
+  | ["pad", shape, n] =>
+    match natOf n with
+    | some k =>
+      if shape = "str" then "ok\t" ++ toString (serLen (padStr k))
+      else if shape = "obj" then "ok\t" ++ toString (serLen (padObj k))
+      else if shape = "arr" then "ok\t" ++ toString (serLen (padArr k))
+      else if shape = "arr2" then "ok\t" ++ toString (serLen (padArr2 k))
+      else "unsupported"
+    | none => "unsupported"
+  | ["def", s, n] =>
+    match defSite s, natOf n with
+    | some site, some k => showVerdict (checkDefinition site k)
+    | _, _ => "unsupported"
+  | ["name", s, j] =>
+    match nameSite s, rd j with
+    | some site, some (.str t) => showVerdict (checkName site t)
+    | _, _ => "unsupported"
+  | ["hist", h0, j] =>
+    match natOf h0, rd j with
+    | some h, some (.arr xs) =>
+      match natList xs with
+      | some adds =>
+        let r := runHistory h adds
+        "ok\t" ++ js (.obj [("failed".toList, .bool r.failed), ("len".toList, nat r.len)])
+      | none => "unsupported"
+    | _, _ => "unsupported"
+  | ["limits"] =>
+    "ok\t" ++ js (.obj [
+      ("maxDataLength".toList, nat Generated.maxDataLength),
+      ("maxDataLengthTaskDispatcher".toList, nat Generated.maxDataLengthTaskDispatcher),
+      ("maxDataLengthRestApiAsyncio".toList, nat Generated.maxDataLengthRestApiAsyncio),
+      ("maxDataLengthRestApi".toList, nat Generated.maxDataLengthRestApi),
+      ("maxStateMachineLength".toList, nat Generated.maxStateMachineLength),
+      ("maxStateMachineLengthRestApiAsyncio".toList, nat Generated.maxStateMachineLengthRestApiAsyncio),
+      ("maxStateMachineLengthRestApi".toList, nat Generated.maxStateMachineLengthRestApi),
+      ("maxExecutionHistoryLength".toList, nat Generated.maxExecutionHistoryLength)])
   | _ => "bad-op"
 
 end Asl.Drv.Quota
